@@ -15,6 +15,74 @@ fn use_err(e: &toml_edit::TomlError) {
     let _ = e.clone();
 }
 
+/// print / debug-print / clone every node and key reachable from an item that still carries spans
+fn walk_im(it: &toml_edit::Item) {
+    let _ = it.to_string();
+    let _ = it.clone();
+    match it {
+        toml_edit::Item::None => {}
+        toml_edit::Item::Value(v) => walk_im_value(v),
+        toml_edit::Item::Table(t) => {
+            let _ = t.to_string();
+            for (k, x) in t.iter() {
+                if let Some((key, _)) = t.get_key_value(k) {
+                    let _ = key.to_string();
+                    let _ = key.display_repr().len();
+                    let _ = format!("{key:?}");
+                }
+                walk_im(x);
+            }
+        }
+        toml_edit::Item::ArrayOfTables(a) => {
+            let _ = a.to_string();
+            for t in a.iter() {
+                let _ = t.to_string();
+                for (_, x) in t.iter() {
+                    walk_im(x);
+                }
+            }
+        }
+    }
+}
+
+fn walk_im_value(v: &toml_edit::Value) {
+    let _ = v.to_string();
+    let _ = format!("{v:?}");
+    let _ = v.clone();
+    match v {
+        toml_edit::Value::String(f) => {
+            let _ = f.display_repr().len();
+            let _ = f.to_string();
+        }
+        toml_edit::Value::Integer(f) => {
+            let _ = f.display_repr().len();
+        }
+        toml_edit::Value::Float(f) => {
+            let _ = f.display_repr().len();
+        }
+        toml_edit::Value::Boolean(f) => {
+            let _ = f.display_repr().len();
+        }
+        toml_edit::Value::Datetime(f) => {
+            let _ = f.display_repr().len();
+        }
+        toml_edit::Value::Array(a) => {
+            for x in a.iter() {
+                walk_im_value(x);
+            }
+        }
+        toml_edit::Value::InlineTable(t) => {
+            for (k, x) in t.iter() {
+                if let Some((key, _)) = t.get_key_value(k) {
+                    let _ = key.to_string();
+                    let _ = key.display_repr().len();
+                }
+                walk_im_value(x);
+            }
+        }
+    }
+}
+
 pub fn cmd_fuzz(args: &crate::Args) -> String {
     // a timing measurement is noisy on a loaded machine: an over-budget run is repeated and the
     // fastest of three runs is what counts
@@ -73,7 +141,15 @@ fn fuzz_once(b: &Vec<u8>) -> (String, u64) {
     match &im {
         Ok(d) => {
             let _ = format!("{d:?}");
+            // printing from the span-keeping document itself (no into_mut): every item, key and value still
+            // refers to the source through spans
+            let _ = d.as_item().to_string();
+            let _ = d.as_table().to_string();
+            walk_im(d.as_item());
             let _ = d.clone().into_mut().to_string();
+            if let Ok(owned) = toml_edit::ImDocument::parse(s.to_string()) {
+                let _ = toml_edit::de::from_document::<toml::Value>(owned).map(|x| format!("{x:?}").len());
+            }
         }
         Err(e) => use_err(e),
     }
